@@ -39,16 +39,17 @@ impl Vector {
 
     pub fn clone_vector(&self, start: Option<usize>, end: Option<usize>) -> Vec<VCell> {
         let v = self.vector.borrow();
-        let mut start = start.unwrap_or(0);
-        if start > v.len() {
-            start = v.len();
-        }
+        let start = start.unwrap_or(0).min(v.len());
 
-        let mut end = end.unwrap_or(v.len() - 1);
-        if end >= v.len() {
-            end = v.len() - 1;
-        }
+        // `end` is the index of the last element copied (inclusive)
+        let end = match end {
+            Some(end) if end < v.len() => end + 1,
+            _ => v.len(),
+        };
 
-        Vec::from(&v[start..=end])
+        if start >= end {
+            return vec![];
+        }
+        Vec::from(&v[start..end])
     }
 }
